@@ -1,10 +1,19 @@
 import IndicatifModel.Props.C06
+import IndicatifModel.Proofs.Faults
 /-!
-# C18 — terminal I/O failures leave the logical state alone (single bar, model level)
+# C18 — terminal I/O failures never panic, poison or corrupt logical state
 
-A failing terminal can only change what happens inside the draw target (calls cut short, the row
-count not updated).  `C06_equivalent` says that nothing in the target ever feeds back into the rest
-of the bar, so the run with failures and the run without agree on everything but the target.
+Two levels.
+
+* Single bar (`C18_logical_unaffected_partial`): nothing in a draw target feeds back into the rest of the
+  bar, so runs whose targets differ — for instance because a terminal failed — agree on the logical state.
+* MultiProgress with a fault plan (`Model/Faults.lean`, validated against the fault-injected crate by the
+  `C18F` stream): the operations of the repaired code with every terminal call subject to "the `k`-th call
+  fails (and all later ones)". For **every** history and **every** pair of fault plans the two runs agree on
+  every bar's position, length, message, prefix and status, on membership and order, and on whether a call
+  panicked (`C18_faults_change_nothing`); `println`/`clear` report exactly whether one of their terminal
+  calls failed (`C18_reported`); and the pinned code's `unwrap()` in `suspend` does panic and poison
+  (`C18_pinned_suspend_panics`).
 -/
 namespace IndicatifModel
 
@@ -12,11 +21,99 @@ namespace IndicatifModel
 terminal of one of them failed at arbitrary points before or during the history — expose the same
 position, length, message, prefix, tick and status afterwards.
 
-`_partial`: the failing terminal is represented by its effect on the target *before* each call; a
-step function that takes the fault plan as an argument (calls cut short inside one draw) and the
-`unwrap` sites as explicit panics are still to be modelled (full statement: DESIGN.md, C18). -/
+`_partial`: single bar, and the failing terminal is represented by its effect on the target *before* each
+call; the step function with a fault plan is the MultiProgress model below. -/
 theorem C18_logical_unaffected_partial (ops : List (Nat × BarOp)) (good faulty : Bar)
     (h : good.core = faulty.core) : (runBar good ops).logical = (runBar faulty ops).logical :=
   C06_logical_equal ops good faulty h
 
 end IndicatifModel
+
+namespace IndicatifModel.Faults
+open FW
+
+/-- **Faults change nothing that matters.** Start the same MultiProgress world under two fault plans
+(any `k`, sticky or not, or none at all) and run any history: afterwards every bar has the same position,
+length, message, prefix and status in both runs, the same bars are members in the same order with the same
+slots, the frame-stale flag and the limiter agree, and a call panicked in one run iff it did in the other —
+so a failing terminal causes no panic that the working terminal would not cause (the only panic left in the
+model is `insert_before/after` on a bar that is not a member, which is the caller's error). -/
+theorem C18_faults_change_nothing (w : FW) (hu : w.unwrapSites = false) (plan plan' : FS) (ops : List MOp) :
+    let a := ({ w with fs := plan } : FW).run ops
+    let b := ({ w with fs := plan' } : FW).run ops
+    a.logical = b.logical ∧ a.bars = b.bars ∧ a.panicked = b.panicked ∧
+    a.multi.ordering = b.multi.ordering ∧ a.multi.members = b.multi.members ∧ a.multi.free = b.multi.free ∧
+    a.multi.stale = b.multi.stale ∧ a.multi.target.limiter = b.multi.target.limiter := by
+  intro a b
+  have h0 : SameW ({ w with fs := plan } : FW) ({ w with fs := plan' } : FW) := ⟨Same.refl _, rfl, rfl, rfl, hu, hu⟩
+  have h := run_same ops _ _ h0
+  exact ⟨by simp only [logical, a, b, h.bars], h.bars, h.panicked, h.multi.ordering, h.multi.members, h.multi.free,
+    h.multi.stale, h.multi.target.limiter⟩
+
+/-- in particular: the logical state under any fault plan is that of the run on a working terminal -/
+theorem C18_logical_unaffected (w : FW) (hu : w.unwrapSites = false) (plan : FS) (ops : List MOp) :
+    (({ w with fs := plan } : FW).run ops).logical = (({ w with fs := {} } : FW).run ops).logical :=
+  (C18_faults_change_nothing w hu plan {} ops).1
+
+/-- … and a fault never makes a call panic -/
+theorem C18_no_panic_from_faults (w : FW) (hu : w.unwrapSites = false) (plan : FS) (ops : List MOp) :
+    (({ w with fs := plan } : FW).run ops).panicked = (({ w with fs := {} } : FW).run ops).panicked :=
+  (C18_faults_change_nothing w hu plan {} ops).2.2.1
+
+theorem paintF_reported (tt : TermTarget) (ds : DrawState) (s : FS) :
+    ((paintF tt ds s).2.2 = true ↔ (paintF tt ds s).2.1.failed = s.failed) ∧ s.failed ≤ (paintF tt ds s).2.1.failed := by
+  unfold paintF
+  simp only []
+  split
+  · exact ⟨⟨fun _ => rfl, fun _ => rfl⟩, Nat.le_refl _⟩
+  · split
+    · exact ⟨⟨fun _ => rfl, fun _ => rfl⟩, Nat.le_refl _⟩
+    · refine ⟨⟨fun h => (by cases h), fun h => ?_⟩, Nat.le_succ _⟩
+      simp only at h
+      omega
+
+/-- **Errors are reported.** `MultiProgress::println` and `MultiProgress::clear` return `Ok` exactly when
+none of the terminal calls they made failed, for every state, every text and every fault plan. -/
+theorem C18_reported (w : FW) (hp : w.panicked = false) (t : Text) :
+    (∃ ok, (w.step (.mpPrintln t)).2 = some ok ∧ (ok = true ↔ (w.step (.mpPrintln t)).1.fs.failed = w.fs.failed)) ∧
+    (∃ ok, (w.step .mpClear).2 = some ok ∧ (ok = true ↔ (w.step .mpClear).1.fs.failed = w.fs.failed)) := by
+  constructor
+  · refine ⟨(printlnF w.multi t w.now w.fs).2.2, by simp only [step, hp, Bool.false_eq_true, if_false, stepGo], ?_⟩
+    simp only [step, hp, Bool.false_eq_true, if_false, stepGo, printlnF, drawF, Bool.true_or, TermTarget.drawable, if_true,
+      Bool.not_true, drawGo]
+    exact (paintF_reported _ _ _).1
+  · refine ⟨(clearF w.multi w.fs).2.2, by simp only [step, hp, Bool.false_eq_true, if_false, stepGo], ?_⟩
+    simp only [step, hp, Bool.false_eq_true, if_false, stepGo, clearF]
+    exact (paintF_reported _ _ _).1
+
+/-- **A panic poisons.** Once a call has panicked (the write lock is poisoned) no later call does anything. -/
+theorem C18_panic_is_absorbing (w : FW) (hp : w.panicked = true) (ops : List MOp) : w.run ops = w := by
+  induction ops with
+  | nil => rfl
+  | cons op ops ih =>
+    have : (w.step op).1 = w := by simp only [step, hp, if_true]
+    simp only [run, List.foldl_cons, this]
+    exact ih
+
+/-- **The pinned code does panic** (finding F19): `MultiState::suspend` unwrapped its two draws while
+holding the write lock. With the very first terminal call failing, `suspend` panics — and the repaired
+code (`let _ =`) does not. -/
+theorem C18_pinned_suspend_panics :
+    let m : Multi := { target := { W := 20, H := 10, fx := Fixes.current } }
+    let plan : FS := { fault := some (0, false) }
+    (({ multi := m, now := 0, fs := plan, unwrapSites := true } : FW).run [.mpSuspend []]).panicked = true ∧
+    (({ multi := m, now := 0, fs := plan, unwrapSites := false } : FW).run [.mpSuspend []]).panicked = false := by
+  constructor <;> decide +kernel
+
+/-- non-vacuity: a history in which a sticky fault strikes in the middle of the second frame — the failing
+`println` reports the error, later draws fail too, and the bar's state is the same as without the fault -/
+example :
+    let m : Multi := { target := { W := 20, H := 10, fx := Fixes.current } }
+    let ops : List MOp := [.add 0 0 (some 10) 1 .andLeave [⟨65, 1⟩], .bar 0 .tick, .mpPrintln [⟨76, 1⟩], .bar 0 (.inc 3), .bar 0 (.finish .andLeave)]
+    let good := ({ multi := m, now := 0 } : FW).run ops
+    let bad := ({ multi := m, now := 0, fs := { fault := some (7, true) } } : FW).run ops
+    bad.fs.failed = 3 ∧ good.fs.failed = 0 ∧ bad.logical = good.logical ∧ bad.panicked = false ∧
+    ((({ multi := m, now := 0, fs := { fault := some (7, true) } } : FW).run (ops.take 2)).step (.mpPrintln [⟨76, 1⟩])).2 = some false := by
+  refine ⟨?_, ?_, ?_, ?_, ?_⟩ <;> decide +kernel
+
+end IndicatifModel.Faults
